@@ -14,12 +14,15 @@ package handler
 // depend on it: every admitted request reports exactly once.
 
 import (
+	"context"
 	"fmt"
 	"net/http"
 	"net/http/httptest"
 	"reflect"
 	"strings"
+	"sync/atomic"
 	"testing"
+	"time"
 
 	"github.com/gotid/god/lib/load"
 	"github.com/gotid/god/lib/logx"
@@ -34,7 +37,9 @@ func init() { logx.Disable() }
 
 type c09hReq struct {
 	Admit  bool        `json:"a"`
-	Beh    string      `json:"b"` // 200 | 503 | 500 | write | none | panic
+	Beh    string      `json:"b"`               // codes | write | none | panic | cancel | timeout (legacy: 200 | 503 | 500)
+	Codes  []int       `json:"codes,omitempty"` // codes: the WriteHeader calls of the wrapped handler, in order
+	Guard  bool        `json:"guard,omitempty"` // real chain order: shedder -> TimeoutHandler -> handler
 	Method string      `json:"m,omitempty"`
 	Proto  string      `json:"pr,omitempty"` // 1.0 | 1.1 | 2
 	Path   string      `json:"p,omitempty"`
@@ -46,6 +51,10 @@ type c09hCase struct {
 	Real bool      `json:"real,omitempty"` // real adaptive shedder behind the counting wrapper
 	Reqs []c09hReq `json:"reqs"`
 }
+
+// final (and informational) status codes of every class, registered or not
+var c09hStatusPool = []int{100, 101, 102, 103, 199, 200, 201, 204, 206, 299, 300, 301, 304, 399, 400, 401, 403, 404, 408, 418, 429, 451,
+	499, 499, 500, 501, 502, 503, 503, 504, 599, 600, 700, 999}
 
 // headers (name, values) a middleware could plausibly special-case
 var c09hHeaderPool = [][]string{
@@ -176,30 +185,61 @@ func c09hInterp(c c09hCase) (v kit.Verdict) {
 		}
 		v.Classes = append(v.Classes, "real-shedder")
 	}
-	nextCalls := 0
-	beh := ""
+	var nextCalls atomic.Int32
+	var cur c09hReq
+	var started chan struct{}
 	next := http.HandlerFunc(func(w http.ResponseWriter, r *http.Request) {
-		nextCalls++
-		switch beh {
+		nextCalls.Add(1)
+		close(started)
+		switch cur.Beh {
 		case "200":
 			w.WriteHeader(http.StatusOK)
 		case "503":
 			w.WriteHeader(http.StatusServiceUnavailable)
 		case "500":
 			w.WriteHeader(http.StatusInternalServerError)
+		case "codes":
+			for _, code := range cur.Codes {
+				w.WriteHeader(code)
+			}
 		case "write":
 			_, _ = w.Write([]byte("x"))
 		case "panic":
 			panic("c09 handler panic")
+		case "cancel", "timeout":
+			// the client goes away / the guard's deadline passes while the handler works
+			// (no deadline at all when the guard lets an Upgrade: websocket request through)
+			if done := r.Context().Done(); done != nil {
+				<-done
+			}
 		}
 	})
-	h := SheddingHandler(sh, c09Metrics)(next)
+	hPlain := SheddingHandler(sh, c09Metrics)(next)
+	hGuard := SheddingHandler(sh, c09Metrics)(TimeoutHandler(time.Hour)(next))
+	hGuardShort := SheddingHandler(sh, c09Metrics)(TimeoutHandler(2 * time.Millisecond)(next))
 	rejected, admitted := 0, 0
 	for i, rq := range c.Reqs {
 		sh.admit, sh.last, sh.calls = rq.Admit, nil, 0
-		nextCalls, beh = 0, rq.Beh
+		nextCalls.Store(0)
+		cur, started = rq, make(chan struct{})
 		rec := httptest.NewRecorder()
 		req := c09hRequest(rq)
+		h, guarded := hPlain, false
+		switch {
+		case rq.Beh == "timeout":
+			h, guarded = hGuardShort, true
+		case rq.Guard || rq.Beh == "cancel":
+			h, guarded = hGuard, true
+		}
+		if rq.Beh == "cancel" {
+			ctx, cancel := context.WithCancel(req.Context())
+			req = req.WithContext(ctx)
+			go func(st chan struct{}) {
+				<-st // mid-handler
+				cancel()
+			}(started)
+			defer cancel()
+		}
 		panicked := func() (p bool) {
 			defer func() {
 				if r := recover(); r != nil {
@@ -215,19 +255,23 @@ func c09hInterp(c c09hCase) (v kit.Verdict) {
 		}
 		if !sh.admitted {
 			rejected++
-			if nextCalls != 0 {
+			if nextCalls.Load() != 0 {
 				return v.Failf("%s: rejected by the shedder but the wrapped handler ran", what)
 			}
+			close(started) // releases the cancel helper, if any
 			if rec.Code != http.StatusServiceUnavailable {
 				return v.Failf("%s: rejected by the shedder but status %d", what, rec.Code)
 			}
 			continue
 		}
 		admitted++
-		if nextCalls != 1 {
-			return v.Failf("%s: admitted but the wrapped handler ran %d times", what, nextCalls)
+		if guarded {
+			<-started // behind the guard the handler runs in its own goroutine
 		}
-		if panicked != (rq.Beh == "panic") {
+		if n := nextCalls.Load(); n != 1 {
+			return v.Failf("%s: admitted but the wrapped handler ran %d times", what, n)
+		}
+		if panicked != (rq.Beh == "panic") && !(panicked && rq.Beh == "codes") {
 			return v.Failf("%s: panicked=%v", what, panicked)
 		}
 		if n := sh.last.pass + sh.last.fail; n != 1 {
@@ -239,6 +283,20 @@ func c09hInterp(c c09hCase) (v kit.Verdict) {
 			}
 		}
 		v.Classes = append(v.Classes, "beh-"+rq.Beh)
+		if guarded {
+			v.Classes = append(v.Classes, "chain-shedder-timeoutguard-handler")
+		}
+		if rq.Beh == "cancel" || rq.Beh == "timeout" {
+			v.Classes = append(v.Classes, fmt.Sprintf("guard-wrote-%d", rec.Code))
+		}
+		if rq.Beh == "codes" {
+			for _, code := range rq.Codes {
+				v.Classes = append(v.Classes, fmt.Sprintf("status-%d", code))
+			}
+			if len(rq.Codes) > 1 {
+				v.Classes = append(v.Classes, "writeheader-twice")
+			}
+		}
 		for _, h := range rq.Hdr {
 			if strings.EqualFold(h[0], "Upgrade") {
 				v.Classes = append(v.Classes, "hdr-upgrade="+h[1])
@@ -255,11 +313,17 @@ func c09hInterp(c c09hCase) (v kit.Verdict) {
 func c09hGenReq(rt *rapid.T) c09hReq {
 	rq := c09hReq{
 		Admit:  rapid.IntRange(0, 3).Draw(rt, "a") > 0,
-		Beh:    rapid.SampledFrom([]string{"200", "503", "500", "write", "none", "panic"}).Draw(rt, "b"),
+		Beh:    rapid.SampledFrom([]string{"codes", "codes", "codes", "codes", "codes", "write", "none", "panic", "cancel", "timeout"}).Draw(rt, "b"),
+		Guard:  rapid.IntRange(0, 2).Draw(rt, "guard") == 0,
 		Method: rapid.SampledFrom([]string{"GET", "GET", "POST", "PUT", "DELETE", "HEAD", "OPTIONS", "PATCH", "CONNECT", "TRACE"}).Draw(rt, "m"),
 		Proto:  rapid.SampledFrom([]string{"1.1", "1.1", "1.0", "2"}).Draw(rt, "pr"),
 		Path:   rapid.SampledFrom([]string{"/c09", "/ws", "/healthz", "/metrics", "/c09?x=1", "/"}).Draw(rt, "p"),
 		Body:   rapid.SampledFrom([]string{"none", "none", "len", "chunked"}).Draw(rt, "bd"),
+	}
+	if rq.Beh == "codes" {
+		for k := rapid.SampledFrom([]int{1, 1, 1, 2}).Draw(rt, "ncodes"); k > 0; k-- {
+			rq.Codes = append(rq.Codes, rapid.SampledFrom(c09hStatusPool).Draw(rt, "code"))
+		}
 	}
 	nh := rapid.IntRange(0, 4).Draw(rt, "nh")
 	for i := 0; i < nh; i++ {
